@@ -102,6 +102,8 @@ def judge(ctx, case, o, stats):
     exp = case["exp"]
     probe = case.get("probe", "?")
     kinds = "+".join(sorted(kinds_of(case) - {"StringRef"})) if probe == "builder" else probe
+    if probe == "twins":
+        kinds = "twins:" + "+".join(sorted(kinds_of(case) - {"Udata"} or {"Udata"}))
     if probe == "lists":
         u = case["units"][0]
         pat = [c["val"]["list"][0]["k"] + str(len(c["val"]["list"])) for c in case["calls"]
@@ -170,7 +172,8 @@ def run(ctx):
         runs = [("kinds", dict(Mode='"kinds"', MaxS=0, MaxM=0, MaxUnits=2, Salt=s, EmitMod=1, AllPlacements="FALSE")),
                 ("builder", dict(Mode='"builder"', MaxS=3, MaxM=1, MaxUnits=2, Salt=s, EmitMod=1, AllPlacements="FALSE")),
                 ("wide", dict(Mode='"wide"', MaxS=0, MaxM=0, MaxUnits=2, Salt=s, EmitMod=1, AllPlacements="FALSE")),
-                ("lists", dict(Mode='"lists"', MaxS=0, MaxM=0, MaxUnits=2, Salt=s, EmitMod=1, AllPlacements="FALSE"))]
+                ("lists", dict(Mode='"lists"', MaxS=0, MaxM=0, MaxUnits=2, Salt=s, EmitMod=1, AllPlacements="FALSE")),
+                ("twins", dict(Mode='"twins"', MaxS=0, MaxM=0, MaxUnits=2, Salt=s, EmitMod=1, AllPlacements="FALSE"))]
     else:
         runs = [("kinds", dict(Mode='"kinds"', MaxS=0, MaxM=0, MaxUnits=2, Salt=s, EmitMod=1, AllPlacements="TRUE")),
                 ("builder", dict(Mode='"builder"', MaxS=4, MaxM=1, MaxUnits=2, Salt=s, EmitMod=1, AllPlacements="FALSE")),
@@ -178,7 +181,8 @@ def run(ctx):
                 ("wide", dict(Mode='"wide"', MaxS=0, MaxM=0, MaxUnits=2, Salt=s, EmitMod=1, AllPlacements="FALSE")),
                 ("wide", dict(Mode='"wide"', MaxS=0, MaxM=0, MaxUnits=2, Salt=s + 1, EmitMod=1, AllPlacements="FALSE")),
                 ("lists", dict(Mode='"lists"', MaxS=0, MaxM=0, MaxUnits=2, Salt=s, EmitMod=1, AllPlacements="FALSE")),
-                ("lists", dict(Mode='"lists"', MaxS=0, MaxM=0, MaxUnits=2, Salt=s + 1, EmitMod=1, AllPlacements="FALSE"))]
+                ("lists", dict(Mode='"lists"', MaxS=0, MaxM=0, MaxUnits=2, Salt=s + 1, EmitMod=1, AllPlacements="FALSE")),
+                ("twins", dict(Mode='"twins"', MaxS=0, MaxM=0, MaxUnits=2, Salt=s, EmitMod=1, AllPlacements="TRUE"))]
     stats = {"exp_err": 0, "same": 0, "bytes_equal": 0}
     seen_kinds = set()
     for ri, (name, consts) in enumerate(runs):
@@ -207,7 +211,7 @@ def run(ctx):
                                     "exp": (case["exp"]["units"][0]["entries"][:2] if case["exp"]["ok"] else case["exp"]),
                                     "obs_ok": (obs.get(i) or {}).get("ok")})
     # ---------------------------------------------------------------- V
-    ntab, lo, hi = (3, 50, 120) if q else (12, 50, 200)
+    ntab, lo, hi = (2, 50, 100) if q else (12, 50, 200)
     tr = ctx.record(bins[0][1], "tables.ndjson", ["--seed", ctx.seed, "--n", ntab, "--min", lo, "--max", hi])
     groups = []
     for ev in read_ndjson(tr):
